@@ -625,6 +625,11 @@ def get_temperature_implicit(
   if method == 'dense':
     return _vertical_matvec(weights, divergence)
   elif method == 'sparse':
+    # `weights[r, s] / 𝛥𝜎[s]` is constant in `s` on either side of the diagonal,
+    # so the cumulative sums must run over the thickness-weighted divergence.
+    thickness = coordinates.layer_thickness
+    weights = weights / thickness
+    divergence = thickness[:, np.newaxis, np.newaxis] * divergence
     diag_weights = np.diag(weights)
     up_weights = np.concatenate([[0], weights[1:, 0]])
     down_weights = np.concatenate([weights[:-1, -1], [0]])
